@@ -130,6 +130,12 @@ def tmp_worktree(repo: str | Path = ".", ref: str = "HEAD") -> Iterator[Path]:
         try:
             yield Path(location)
         finally:
-            subprocess.run(["git", "-C", repo, "worktree", "remove", location], stdout=subprocess.DEVNULL, check=False)
+            # Force the removal: analysing the checkout can leave untracked files in it (files written
+            # by inspected modules, byte-code caches), and `git worktree remove` refuses a dirty worktree.
+            subprocess.run(
+                ["git", "-C", repo, "worktree", "remove", "--force", location],
+                stdout=subprocess.DEVNULL,
+                check=False,
+            )
             subprocess.run(["git", "-C", repo, "worktree", "prune"], stdout=subprocess.DEVNULL, check=False)
             subprocess.run(["git", "-C", repo, "branch", "-D", tmp_branch], stdout=subprocess.DEVNULL, check=False)
